@@ -268,6 +268,12 @@ func fGenText(thorough bool) (*fDoc, Options) {
 		case 2:
 			d.plain("")
 			d.plain("; end")
+		default:
+			// the transaction's last posting is the last line of the document: with trailing
+			// blanks on it (and, by "final", with or without a final line end)
+			if zzverif.Choice("lasttrail", 2) == 1 {
+				d.lines[len(d.lines)-1].addTrail(" ")
+			}
 		}
 	default:
 		if zzverif.Choice("eol", 2) == 1 {
